@@ -1,9 +1,176 @@
-import Fv.Lemmas.IocSpec
+import Fv.Lemmas.IocCycle
+import Fv.Lemmas.IocConc
 /-!
-# C18 — IoC resolution (model: `Fv.Ioc`, /repo/ioc)
+# C18 — IoC resolution: singletons once and shared, transients fresh, keys isolated
+(model: `Fv.Ioc`, code: /repo/ioc/src/{core,container,local_container,global,macros}.rs)
+
+All statements are about `Fv.Ioc`: arbitrary registries / histories (`runOps World.empty ops` for any
+`ops`), arbitrary keys, any number of containers (global = container 0, instance and local ones).
+
+* isolation, unregistered ⇒ `None`, latest registration wins, transient freshness, singleton
+  sharing and run count, totality, cycle ⇒ panic: full strength.
+* `panic(cycle) ⇒ cycle` is FALSE on the code (F16: the resolving set ignores the container):
+  `C18_fails_F16`; proved for factories that stay inside one container
+  (`C18_cycle_panic_only_for_cycles_partial`).
+* threads: `_partial` w.r.t. schedules — the small-step model takes `OnceCell::get_or_init` as one
+  atomic test-and-run step (once_cell's contract, trusted) and quantifies over every interleaving
+  of those steps with lookups and registrations.
 -/
 namespace Fv.Props.C18
 open Fv.Ioc
+
+/-! ## Keys are isolated -/
+
+/-- A registration under `(container, type, name) = s'` does not change what any other slot holds:
+differently typed, differently named (`None` vs `Some ""` included) or differently placed
+registrations never alias. -/
+theorem C18_key_isolation (w : World) (op : Op) (s s' : Slot) (hreg : op.regSlot = some s') (hne : s ≠ s') :
+    (applyOp w op).1.regs.get s = w.regs.get s :=
+  applyOp_reg_other hreg hne
+
+/-- A resolution (of any slot, with any outcome, panics included) never adds, removes or replaces a
+registration: every slot keeps its provider, which can only have been initialised / counted. -/
+theorem C18_resolution_keeps_registrations (w : World) (c : Nat) (k : Key) (s : Slot) :
+    (w.regs.get s = none → (resolve w c k).1.regs.get s = none) ∧
+    (∀ p, w.regs.get s = some p → ∃ p', (resolve w c k).1.regs.get s = some p' ∧ p.Evolves p') :=
+  ⟨fun h => (resolve_ext w c k).get_none h, fun p h => (resolve_ext w c k).evolves s p h⟩
+
+example : (applyOp { regs := [(⟨1, ⟨0, none⟩⟩, .inst 3)], next := 4 } (.regInstance 1 ⟨0, some 0⟩ 9)).1.regs.get ⟨1, ⟨0, none⟩⟩
+    = some (.inst 3) := by decide
+
+/-! ## Unregistered ⇒ `None` -/
+
+/-- After ANY history that never registers slot `s`, resolving `s` returns `None` (no panic) and
+changes nothing. -/
+theorem C18_unregistered_none (ops : List Op) (s : Slot) (hno : ∀ op ∈ ops, op.regSlot ≠ some s) :
+    resolve (runOps World.empty ops) s.c s.k = (runOps World.empty ops, .none) := by
+  obtain ⟨c, k⟩ := s
+  have hg := runOps_good World.good_empty ops
+  have hnone := runOps_get_none (w := World.empty) (s := ⟨c, k⟩) ops hno rfl
+  exact resolveF_unregistered (by rw [hg.idle]; simp) hnone
+
+example : resolve (runOps World.empty [.regInstance 1 ⟨0, none⟩ 5, .resolve 1 ⟨0, none⟩]) 1 ⟨0, some 0⟩
+    = (runOps World.empty [.regInstance 1 ⟨0, none⟩ 5, .resolve 1 ⟨0, none⟩], .none) := by decide
+
+/-! ## The latest registration wins -/
+
+/-- After `… reg(s, p) …` with no later registration of `s`, slot `s` holds `p` itself, possibly
+initialised/counted by the resolutions that followed — never an older registration of `s`. -/
+theorem C18_latest_registration_wins (before after : List Op) (reg : Op) (s : Slot) (p : Provider)
+    (hs : reg.regSlot = some s) (hp : reg.provider = some p) (hno : ∀ op ∈ after, op.regSlot ≠ some s) :
+    ∃ p', (runOps World.empty (before ++ reg :: after)).regs.get s = some p' ∧ p.Evolves p' := by
+  rw [runOps_append]
+  simp only [runOps]
+  exact runOps_evolves after hno (applyOp_reg_get hs hp)
+
+/-- In particular an `add_instance` is what every later resolution returns, whatever was registered
+under the key before. -/
+theorem C18_latest_instance_resolved (before after : List Op) (c : Nat) (k : Key) (id : Nat)
+    (hno : ∀ op ∈ after, op.regSlot ≠ some ⟨c, k⟩) :
+    (resolve (runOps World.empty (before ++ .regInstance c k id :: after)) c k).2 = .some id := by
+  obtain ⟨p', hp', ev⟩ := C18_latest_registration_wins before after (.regInstance c k id) ⟨c, k⟩ (.inst id) rfl rfl hno
+  simp only [Provider.Evolves] at ev
+  subst ev
+  have hg := runOps_good World.good_empty (before ++ .regInstance c k id :: after)
+  rw [show resolve _ c k = _ from resolveF_inst (by rw [hg.idle]; simp) hp']
+
+example : (resolve (runOps World.empty [.regSingleton 1 ⟨0, none⟩ [], .resolve 1 ⟨0, none⟩, .regInstance 1 ⟨0, none⟩ 9]) 1 ⟨0, none⟩).2
+    = .some 9 := by decide
+
+/-! ## Transients are fresh -/
+
+/-- A transient resolution that returns an instance returns one that did not exist before
+(`≥` the id counter, under which every stored or previously returned instance lies) and moves the
+counter past it. -/
+theorem C18_transient_fresh (w w' : World) (c : Nat) (k : Key) (sc : List Dep) (r id : Nat)
+    (hget : w.regs.get ⟨c, k⟩ = some (.transient sc r)) (hres : resolve w c k = (w', .some id)) :
+    w.next ≤ id ∧ w'.next = id + 1 ∧ w'.regs.get ⟨c, k⟩ = some (.transient sc (r + 1)) := by
+  obtain ⟨h1, h2, h3⟩ := resolveF_active_some hget (sc := sc) rfl hres
+  refine ⟨h1, h2, ?_⟩
+  rcases h3 with ⟨r0, h, _⟩ | ⟨r0, h, h'⟩
+  · cases h
+  · cases h; exact h'
+
+/-- Every instance any resolution returns is below the counter afterwards (so a later transient
+instance differs from it). -/
+theorem C18_returned_below_counter (ops : List Op) (c : Nat) (k : Key) (w' : World) (id : Nat)
+    (hres : resolve (runOps World.empty ops) c k = (w', .some id)) : id < w'.next :=
+  resolveF_some_lt (runOps_good World.good_empty ops).ids hres
+
+/-- Two transient resolutions anywhere in a history (same key or not, any operations in between)
+return different instances; ids strictly increase. -/
+theorem C18_transient_pairwise_distinct (ops mid : List Op) (c c' : Nat) (k k' : Key) (w1 w2 : World)
+    (id1 id2 : Nat) (sc' : List Dep) (r' : Nat)
+    (h1 : resolve (runOps World.empty ops) c k = (w1, .some id1))
+    (hget2 : (runOps w1 mid).regs.get ⟨c', k'⟩ = some (.transient sc' r'))
+    (h2 : resolve (runOps w1 mid) c' k' = (w2, .some id2)) : id1 < id2 := by
+  have hlt := C18_returned_below_counter ops c k w1 id1 h1
+  have hmono := runOps_next_le w1 mid
+  have := (C18_transient_fresh _ _ _ _ _ _ _ hget2 h2).1
+  omega
+
+example : (resolve (runOps World.empty [.regTransient 1 ⟨2, none⟩ [], .resolve 1 ⟨2, none⟩]) 1 ⟨2, none⟩).2 = .some 1 := by
+  decide
+
+/-! ## Singletons: one instance, one factory run -/
+
+/-- Once a resolution of a singleton slot has returned `id`, every later resolution of the slot —
+after any operations that do not re-register it — returns the same `id`, without running anything. -/
+theorem C18_singleton_shared (ops mid : List Op) (c : Nat) (k : Key) (sc : List Dep) (cell : Option Nat)
+    (r id : Nat) (w1 : World)
+    (hget : (runOps World.empty ops).regs.get ⟨c, k⟩ = some (.singleton sc cell r))
+    (h1 : resolve (runOps World.empty ops) c k = (w1, .some id))
+    (hno : ∀ op ∈ mid, op.regSlot ≠ some ⟨c, k⟩) :
+    resolve (runOps w1 mid) c k = (runOps w1 mid, .some id) := by
+  obtain ⟨r', hr'⟩ := resolveF_singleton_some hget h1
+  obtain ⟨p', hp', ev⟩ := runOps_evolves mid hno hr'
+  simp only [Provider.Evolves] at ev
+  subst ev
+  have hg0 := runOps_good World.good_empty ops
+  have hg1 : w1.Good := by
+    have := applyOp_good hg0 (.resolve c k)
+    simp only [applyOp, h1] at this
+    exact this
+  have hg := runOps_good hg1 mid
+  exact resolveF_filled (by rw [hg.idle]; simp) hp'
+
+/-- In every reachable state every singleton registration has completed its factory at most once:
+never for an empty cell, exactly once for a filled one. -/
+theorem C18_singleton_factory_at_most_once (ops : List Op) (s : Slot) (sc : List Dep) (cell : Option Nat) (r : Nat)
+    (hget : (runOps World.empty ops).regs.get s = some (.singleton sc cell r)) :
+    r ≤ 1 ∧ (cell = none ↔ r = 0) := by
+  have := (runOps_good World.good_empty ops).runs s _ hget
+  cases cell <;> simp_all [Provider.RunsOk]
+
+example : (runOps World.empty [.regSingleton 1 ⟨0, none⟩ [], .resolve 1 ⟨0, none⟩, .resolve 1 ⟨0, none⟩]).count ⟨1, ⟨0, none⟩⟩
+    = some 1 := by decide
+
+/-! ## Cycles: a panic, never a hang -/
+
+/-- The resolver is total: for EVERY registry, container, key and resolving set, `regs.length + 1`
+levels of nesting suffice — the real recursion terminates (no hang, no unbounded stack). -/
+theorem C18_resolve_total (w : World) (c : Nat) (k : Key) : (resolve w c k).2 ≠ .diverge :=
+  resolve_total w c k
+
+/-- Whenever the dependency graph reachable from the resolved slot has a cycle, the outcome is a
+panic (and, `resolve_cycle_frame`, no slot on the way is ever initialised). -/
+theorem C18_cycle_panics (w : World) (c : Nat) (k : Key) (h : CycleFrom w ⟨c, k⟩) :
+    ∃ p, (resolve w c k).2 = .panic p :=
+  resolve_cycle_panics h
+
+/-- a two-slot cycle A → B → A -/
+def cycWorld : World :=
+  { regs := [(⟨1, ⟨0, none⟩⟩, .singleton [⟨1, ⟨1, none⟩, true⟩] none 0),
+             (⟨1, ⟨1, none⟩⟩, .transient [⟨1, ⟨0, none⟩, false⟩] 0)] }
+
+example : CycleFrom cycWorld ⟨1, ⟨0, none⟩⟩ := by
+  have e1 : ActiveEdge cycWorld ⟨1, ⟨0, none⟩⟩ ⟨1, ⟨1, none⟩⟩ :=
+    ⟨.singleton [⟨1, ⟨1, none⟩, true⟩] none 0, [⟨1, ⟨1, none⟩, true⟩], by decide, rfl, ⟨1, ⟨1, none⟩, true⟩, by simp, rfl⟩
+  have e2 : ActiveEdge cycWorld ⟨1, ⟨1, none⟩⟩ ⟨1, ⟨0, none⟩⟩ :=
+    ⟨.transient [⟨1, ⟨0, none⟩, false⟩] 0, [⟨1, ⟨0, none⟩, false⟩], by decide, rfl, ⟨1, ⟨0, none⟩, false⟩, by simp, rfl⟩
+  exact ⟨_, _, Reach.refl _, e1, Reach.step e2 (Reach.refl _)⟩
+
+example : (resolve cycWorld 1 ⟨0, none⟩).2 = .panic .cycle := by decide
 
 /-- The exact form of the cycle clause: a "Circular dependency" panic is reported only when the
 dependency graph reachable from the resolved slot has a cycle.  FALSE on the code (F16). -/
@@ -11,9 +178,23 @@ def CyclePanicOnlyForCycles : Prop :=
   ∀ (w : World) (c : Nat) (k : Key), w.resolving = [] →
     (resolve w c k).2 = .panic .cycle → CycleFrom w ⟨c, k⟩
 
+/-- True when every factory resolves from one and the same container `c`. -/
+theorem C18_cycle_panic_only_for_cycles_partial (w : World) (c : Nat) (k : Key) (hone : OneContainer w c)
+    (hidle : w.resolving = []) (h : (resolve w c k).2 = .panic .cycle) : CycleFrom w ⟨c, k⟩ :=
+  resolve_cycle_panic_sound hone hidle h
+
+example : OneContainer cycWorld 1 := by
+  intro s p hget d hd
+  simp only [cycWorld, Reg.get] at hget
+  split at hget
+  · cases hget; simp only [Provider.script, List.mem_singleton] at hd; subst hd; rfl
+  · split at hget
+    · cases hget; simp only [Provider.script, List.mem_singleton] at hd; subst hd; rfl
+    · cases hget
+
 /-- container 1 decorates the service `T0` of the global container 0 -/
 def f16World : World :=
-  { regs := [(⟨1, ⟨0, none⟩⟩, .singleton [⟨0, ⟨0, none⟩, true⟩] none 0), (⟨0, ⟨0, none⟩⟩, .instance 7)], next := 8 }
+  { regs := [(⟨1, ⟨0, none⟩⟩, .singleton [⟨0, ⟨0, none⟩, true⟩] none 0), (⟨0, ⟨0, none⟩⟩, .inst 7)], next := 8 }
 
 theorem f16_edge {a x : Slot} (h : ActiveEdge f16World a x) : a = ⟨1, ⟨0, none⟩⟩ ∧ x = ⟨0, ⟨0, none⟩⟩ := by
   obtain ⟨p, sc, hg, ha, d, hd, hx⟩ := h
@@ -40,5 +221,72 @@ theorem C18_fails_F16 : ¬ CyclePanicOnlyForCycles := by
   subst hsrc hu
   cases hb with
   | step e _ => exact absurd (f16_edge e).1 (by decide)
+
+/-! ## Threads (partial w.r.t. schedules: `get_or_init` atomic, see `Fv.Ioc.stepJob`) -/
+
+/-- all jobs are at their start -/
+def Job.Initial : Job → Prop
+  | .resolver _ _ ph => ph = .ready
+  | .registrar _ _ fin => fin = false
+
+/-- **At most once, same instance, under every schedule.**  Start: slot `s` holds a freshly
+registered singleton; any number of threads (`jobs`): resolvers of `s`, resolvers of other keys,
+and registrations of other slots.  For EVERY schedule (any list of thread indices, fair or not,
+finished or not): the factory of `s` has completed at most once, and all resolver threads of `s`
+that have returned an instance returned the same one, which is the one in the cell. -/
+theorem C18_once_under_every_schedule_partial (w : World) (s : Slot) (sc : List Dep) (jobs : List Job)
+    (hidle : w.resolving = []) (hget : w.regs.get s = some (.singleton sc none 0))
+    (hinit : ∀ j ∈ jobs, Job.Initial j) (hreg : ∀ j ∈ jobs, ∀ s' p f, j = .registrar s' p f → s' ≠ s)
+    (sched : List Nat) :
+    let cf := runSched ⟨w, jobs⟩ sched
+    (∃ n, cf.w.count s = some n ∧ n ≤ 1) ∧
+    (∀ j ∈ cf.jobs, ∀ j' ∈ cf.jobs, ∀ id id', j = .resolver s.c s.k (.done (.some id)) →
+      j' = .resolver s.c s.k (.done (.some id')) → id = id' ∧ ∃ r, cf.w.regs.get s = some (.singleton sc (some id) r)) := by
+  have h0 : RaceInv s sc ⟨w, jobs⟩ := by
+    refine ⟨hidle, hreg, Or.inl ⟨hget, ?_⟩⟩
+    intro j hj id e
+    have := hinit j hj
+    subst e
+    simp [Job.Initial] at this
+  obtain ⟨_, _, h3⟩ := runSched_raceInv sched h0
+  intro cf
+  rcases h3 with ⟨hg, hn⟩ | ⟨id0, hg, ha⟩
+  · refine ⟨⟨0, by simp [World.count, cf, hg], Nat.zero_le _⟩, ?_⟩
+    intro j hj j' _ id id' e _
+    exact absurd e (hn j hj id)
+  · refine ⟨⟨1, by simp [World.count, cf, hg], Nat.le_refl _⟩, ?_⟩
+    intro j hj j' hj' id id' e e'
+    have h1 := ha j hj id e
+    have h2 := ha j' hj' id' e'
+    subst h1 h2
+    exact ⟨rfl, 1, hg⟩
+
+/-- Every slot, every schedule: whatever threads resolve and register (fresh providers) in whatever
+interleaving, no singleton registration ever completes its factory twice. -/
+theorem C18_factory_at_most_once_under_every_schedule_partial (ops : List Op) (jobs : List Job)
+    (hfresh : FreshRegistrars jobs) (sched : List Nat) (s : Slot) (sc : List Dep) (cell : Option Nat) (r : Nat)
+    (hget : (runSched ⟨runOps World.empty ops, jobs⟩ sched).w.regs.get s = some (.singleton sc cell r)) :
+    r ≤ 1 ∧ (cell = none ↔ r = 0) := by
+  have := (runSched_good sched (cf := ⟨runOps World.empty ops, jobs⟩) (runOps_good World.good_empty ops) hfresh).runs s _ hget
+  cases cell <;> simp_all [Provider.RunsOk]
+
+/-- non-vacuity: three racing resolvers and a registrar, two different schedules, same result -/
+def raceConf : Conf :=
+  { w := { regs := [(⟨1, ⟨0, none⟩⟩, .singleton [⟨1, ⟨1, none⟩, false⟩] none 0)] },
+    jobs := [.resolver 1 ⟨0, none⟩ .ready, .resolver 1 ⟨0, none⟩ .ready, .resolver 1 ⟨0, none⟩ .ready,
+             .registrar ⟨1, ⟨1, none⟩⟩ (.inst 40) false] }
+
+example : (runSched raceConf [0, 1, 2, 3, 2, 1, 0]).jobs.take 3 =
+    [.resolver 1 ⟨0, none⟩ (.done (.some 41)), .resolver 1 ⟨0, none⟩ (.done (.some 41)), .resolver 1 ⟨0, none⟩ (.done (.some 41))] := by
+  decide
+
+example : FreshRegistrars raceConf.jobs := by
+  intro j hj s p f e
+  subst e
+  simp only [raceConf, List.mem_cons, reduceCtorEq, Job.registrar.injEq, List.not_mem_nil, or_false, false_or] at hj
+  obtain ⟨_, rfl, _⟩ := hj
+  trivial
+
+example : (runSched raceConf [2, 2, 3, 0, 0, 1, 1]).w.count ⟨1, ⟨0, none⟩⟩ = some 1 := by decide
 
 end Fv.Props.C18
